@@ -1,0 +1,100 @@
+//go:build verif
+
+// Machine-checked contracts for the rate limiter (read by /verif/bin/fsv; comment-only, guarded by the verif tag).
+// Property C05: rate limiter never admits faster than configured; refusals cost nothing.
+
+package ratelimiter
+
+// ---------------------------------------------------------------------------------------------
+// Environment (assumed): the stopwatch reads a non-negative elapsed time below 2^62 ns (~146 years).
+//@ extfunc github.com/failsafe-go/failsafe-go/internal/util.Stopwatch.ElapsedTime
+//@   modifies nothing
+//@   ensures result >= 0 && result <= 4611686018427387904
+
+// Configuration is frozen after Build (builders are documented as not concurrency safe).
+//@ frozen config.maxWaitTime, config.onRateLimitExceeded, config.interval, config.periodPermits, config.period
+//@ frozen smoothStats.config, smoothStats.stopwatch, burstyStats.config, burstyStats.stopwatch
+
+// ---------------------------------------------------------------------------------------------
+// Smooth limiter: specification functions (I = interval, N = nextFreePermitTime, k = permits)
+//@ pure func smBase(t, N, I int) int = ite(t >= N, t - emod(t, I), N)
+//@ pure func smNext(t, N, I, k int) int = smBase(t, N, I) + k*I
+//@ pure func smWait(t, N, I, k int) int = max(smNext(t, N, I, k) - t - I, 0)
+
+//@ ghost field (*smoothStats).n int
+//@ monitor (*smoothStats).mtx
+//@   guards nextFreePermitTime, $n
+//@   invariant [C05.smooth.inv] self.interval > 0 && self.n >= 0 && self.nextFreePermitTime == self.n * self.interval
+//@   premise self.nextFreePermitTime <= 4611686018427387904
+
+//@ func (*smoothStats).acquirePermits
+//@   requires s != nil && s.config != nil && s.stopwatch != nil && !held(mutexof(s, "mtx"))
+//@   requires requestedPermits >= 0
+//@   requires requestedPermits * s.interval <= 2305843009213693952
+//@   requires s.interval > 0 && s.interval <= 2305843009213693952
+//@   ext t := ret(s.stopwatch.ElapsedTime, 1)
+//@   let N0 := old(s.nextFreePermitTime)
+//@   let nx := smNext(t, N0, s.interval, requestedPermits)
+//@   let w := smWait(t, N0, s.interval, requestedPermits)
+//@   let refused := maxWaitTime != -1 && w > maxWaitTime
+//@   onwrite nextFreePermitTime: s.n := ite(t >= old(s.nextFreePermitTime), ediv(t, s.interval), old(s.n)) + requestedPermits
+//@   ensures [C05.smooth.refuse] refused ==> result == -1 && s.nextFreePermitTime == N0
+//@   ensures [C05.smooth.grant] !refused ==> result == w && s.nextFreePermitTime == nx
+//@   ensures [C05.smooth.result_range] result >= -1
+//@   ensures [C05.smooth.clock_once] ncalls(s.stopwatch.ElapsedTime) == 1
+//@   modifies s.nextFreePermitTime, s.n, calls(s.stopwatch.ElapsedTime)
+
+//@ func exceedsMaxWaitTime
+//@   ensures [C05.exceeds] result == (maxWaitTime != -1 && waitTime > maxWaitTime)
+
+// History lemmas over the transition function (N = n*I is the monitor invariant).
+// L1: the slots granted by a call are base/I .. base/I+k-1, none below the old next/I: slot indices only grow.
+//@ lemma [C05.smooth.slots_increase] forall t int, n int, I int, k int :: I > 0 && t >= 0 && n >= 0 && k >= 0 ==> smBase(t, n*I, I) == ite(t >= n*I, ediv(t, I), n) * I && ite(t >= n*I, ediv(t, I), n) >= n && smNext(t, n*I, I, k) == (ite(t >= n*I, ediv(t, I), n) + k) * I
+// L2: the returned wait lands in the last granted slot.
+//@ lemma [C05.smooth.usable_in_slot] forall t int, n int, I int, k int :: I > 0 && t >= 0 && n >= 0 && k >= 1 ==> smNext(t, n*I, I, k) - I <= t + smWait(t, n*I, I, k) && t + smWait(t, n*I, I, k) < smNext(t, n*I, I, k)
+// L3: k at once == k singles at the same instant (step of the induction on k).
+//@ lemma [C05.smooth.k_equals_singles] forall t int, n int, I int, k int :: I > 0 && t >= 0 && n >= 0 && k >= 1 ==> smNext(t, smNext(t, n*I, I, k), I, 1) == smNext(t, n*I, I, k+1) && smWait(t, smNext(t, n*I, I, k), I, 1) == smWait(t, n*I, I, k+1)
+// L4: earliest instant respecting the order of requests.
+//@ lemma [C05.smooth.earliest] forall t int, n int, I int, k int :: I > 0 && t >= 0 && n >= 0 && k >= 1 ==> smWait(t, n*I, I, k) == max(0, max(n*I, t - emod(t, I)) + (k-1)*I - t)
+
+// ---------------------------------------------------------------------------------------------
+// Bursty limiter. P = periodPermits, T = period, A = availablePermits, C = currentPeriod, n = t/T.
+// Specification taken from the property: a period never credits more than P permits, a deficit is paid back
+// by P per elapsed period:  A1 = min(A + (n-C)*P, P) when the period advanced.
+//@ pure func buA1(A, C, n, P int) int = ite(C < n, min(A + (n-C)*P, P), A)
+//@ pure func buC1(C, n int) int = max(C, n)
+//@ pure func buWait(a1, c1, k, P, T, t int) int = ite(k - a1 <= 0, 0, (c1 + 1 + ediv(k - a1 - 1, P))*T - t)
+//@ pure func buPos(A, C, P int) int = (C+1)*P - A
+
+//@ monitor (*burstyStats).mtx
+//@   guards availablePermits, currentPeriod
+//@   invariant [C05.bursty.inv] self.periodPermits >= 1 && self.period >= 1 && self.currentPeriod >= 0 && self.availablePermits <= self.periodPermits
+//@   premise self.availablePermits >= -2305843009213693952 && (self.currentPeriod + 1) * self.period <= 2305843009213693952
+//@   premise (2147483648 + self.periodPermits - self.availablePermits) * self.period <= 2305843009213693952
+
+//@ func (*burstyStats).acquirePermits
+//@   requires s != nil && s.config != nil && s.stopwatch != nil && !held(mutexof(s, "mtx"))
+//@   requires requestedPermits >= 0 && requestedPermits <= 2147483648
+//@   requires s.periodPermits >= 1 && s.periodPermits <= 2147483648 && s.period >= 1 && s.period <= 1152921504606846976
+//@   ext t := ret(s.stopwatch.ElapsedTime, 1)
+//@   premise ediv(t, s.period) * s.periodPermits <= 2305843009213693952
+//@   let n := ediv(t, s.period)
+//@   let A0 := old(s.availablePermits)
+//@   let C0 := old(s.currentPeriod)
+//@   let a1 := buA1(A0, C0, n, s.periodPermits)
+//@   let c1 := buC1(C0, n)
+//@   let w := buWait(a1, c1, requestedPermits, s.periodPermits, s.period, t)
+//@   let refused := requestedPermits > a1 && maxWaitTime != -1 && w > maxWaitTime
+//@   ensures [C05.bursty.roll] s.currentPeriod == c1
+//@   ensures [C05.bursty.refuse] refused ==> result == -1 && s.availablePermits == a1
+//@   ensures [C05.bursty.grant] !refused ==> result == w && s.availablePermits == a1 - requestedPermits
+//@   ensures [C05.bursty.result_range] result >= -1
+//@   ensures [C05.bursty.clock_once] ncalls(s.stopwatch.ElapsedTime) == 1
+//@   modifies s.availablePermits, s.currentPeriod, calls(s.stopwatch.ElapsedTime)
+//@   witness A := old(s.availablePermits)
+//@   witness C := old(s.currentPeriod)
+//@   witness P := s.periodPermits
+//@   witness T := s.period
+//@   witness t := t
+//@   witness k := requestedPermits
+//@   witness maxWait := maxWaitTime
